@@ -56,7 +56,7 @@ type TLSConfig struct {
 	// tlsConfig is the internal Go TLS configuration
 	tlsConfig   *tls.Config
 	mu          sync.RWMutex
-	currentCert atomic.Pointer[tls.Certificate] // atomically updated for concurrent reads
+	currentCert *atomic.Pointer[tls.Certificate] // created by BuildConfig, shared with clones so a reload via GetExportOptions().TLS reaches the listener
 }
 
 // DefaultTLSConfig returns a TLS configuration with secure defaults
@@ -154,12 +154,16 @@ func (tc *TLSConfig) BuildConfig() (*tls.Config, error) {
 	}
 
 	// Store cert atomically for concurrent-safe access
-	tc.currentCert.Store(&cert)
+	if tc.currentCert == nil {
+		tc.currentCert = new(atomic.Pointer[tls.Certificate])
+	}
+	currentCert := tc.currentCert
+	currentCert.Store(&cert)
 
 	// Create base TLS config using GetCertificate callback for hot-reload support
 	config := &tls.Config{
 		GetCertificate: func(*tls.ClientHelloInfo) (*tls.Certificate, error) {
-			return tc.currentCert.Load(), nil
+			return currentCert.Load(), nil
 		},
 		MinVersion:               tc.MinVersion,
 		MaxVersion:               tc.MaxVersion,
@@ -224,8 +228,11 @@ func (tc *TLSConfig) ReloadCertificates() error {
 	}
 
 	// Atomically update the certificate - the GetCertificate callback
-	// will pick up the new cert on the next TLS handshake
-	tc.currentCert.Store(&cert)
+	// will pick up the new cert on the next TLS handshake. Before the first
+	// BuildConfig there is no callback yet; BuildConfig loads the files itself.
+	if tc.currentCert != nil {
+		tc.currentCert.Store(&cert)
+	}
 
 	return nil
 }
@@ -316,6 +323,7 @@ func (tc *TLSConfig) Clone() *TLSConfig {
 		MaxVersion:               tc.MaxVersion,
 		PreferServerCipherSuites: tc.PreferServerCipherSuites,
 		InsecureSkipVerify:       tc.InsecureSkipVerify,
+		currentCert:              tc.currentCert,
 	}
 
 	// Copy cipher suites slice
